@@ -20,6 +20,9 @@ use std::cell::Cell;
 pub struct G<'a> {
     data: &'a [u32],
     pos: usize,
+    /// generator option (not a random choice): row generators may script refusable offers
+    /// (`RowProg::offers`); only the properties whose oracle knows about them turn it on
+    pub allow_offers: bool,
 }
 
 thread_local! {
@@ -29,7 +32,7 @@ thread_local! {
 
 impl<'a> G<'a> {
     pub fn new(data: &'a [u32]) -> Self {
-        G { data, pos: 0 }
+        G { data, pos: 0, allow_offers: false }
     }
     pub fn used(&self) -> usize {
         self.pos
